@@ -10,6 +10,18 @@ import z3
 from symnum import CTX, S, SB, SymArray, SymRot, install, toz, tob, oarr, symarr, sym, explore, run_concrete
 from symnum.core import consts_of, val_to_float, complete_env
 
+_UQ = [(0, 0, 0, 1), (1, 1, 1, 1), (1, 2, 2, 4), (0, 3, 4, 0), (2, 3, 6, 0), (1, 4, 8, 0), (2, 2, 1, 0), (2, 4, 5, 6), (1, 1, 3, 5), (1, 2, 4, 2)]
+
+
+def _norm(t):
+    import math
+
+    n = math.isqrt(sum(x * x for x in t))
+    assert n * n == sum(x * x for x in t), t
+    return tuple(Fraction(x, n) for x in t)
+
+
+UNIT_QUATS = [_norm(t) for t in _UQ]
 NICE = [0, 1, -1, Fraction(1, 2), Fraction(-1, 2), 2, -2, Fraction(1, 4), Fraction(-1, 4), 3, -3, Fraction(3, 2), Fraction(-3, 2), Fraction(3, 4), Fraction(-3, 4)]
 
 
@@ -50,7 +62,7 @@ class Case:
             self._witness_cache[key] = CTX.check(list(assumptions), timeout=min(self.qtimeout, 10000))
         return self._witness_cache[key]
 
-    def oblige(self, name, assumptions, negated, on_model=None, inputs=None, timeout=None, lemmas=(), sample=None, nice=True):
+    def oblige(self, name, assumptions, negated, on_model=None, inputs=None, timeout=None, lemmas=(), sample=None, nice=True, quat_groups=()):
         """obligation: assumptions => not negated.   negated: formula describing a violation.
         on_model(env) -> candidate dict (key, replay[, known_id]) or None"""
         t = time.time()
@@ -62,9 +74,15 @@ class Case:
             o["witness"] = w
             if w == "unsat":
                 o["note"] = "antecedent unsatisfiable (infeasible path) - not counted as non-trivial"
-        elif res == "sat":
-            env = None
-            if nice and inputs:
+        env = None
+        if res == "unknown" and inputs and on_model is not None:
+            env = self.instantiate_search(q, inputs, quat_groups)
+            if env is not None:
+                res = "sat"
+                o["status"] = "sat"
+                o["backend"] = "instantiation+" + backend
+        if res == "sat":
+            if env is None and nice and inputs:
                 env = self.nice_model(q, inputs)
             if env is None:
                 env = self.env_of(s, q)
@@ -82,6 +100,37 @@ class Case:
         if sample is not None and len(self.samples) < 3 and res == "unsat":
             self.samples.append({"case": self.case.get("id"), "obligation": name, "result": res, "what": sample})
         return res
+
+    def merge_uf(self, assumptions, goal, timeout=None, names=None):
+        """congruence-guided rewriting: for pairs of applications of the same abstracted function whose arguments are provably
+        equal under the assumptions, replace one result variable by the other in the goal.  Returns (new goal, merged, failed)."""
+        timeout = timeout or self.qtimeout
+        acc, seen = {}, set()
+        consts_of(goal, acc, seen)
+        merged = failed = 0
+        subst = []
+        for name, apps in CTX.uf_apps.items():
+            if names is not None and not any(name.startswith(n) for n in names):
+                continue
+            rel = [(v, a) for v, a in apps if v.get_id() in acc]
+            reps = []
+            for v, a in rel:
+                done = False
+                for rv_, ra in reps:
+                    diff = z3.Or(*[x != y for x, y in zip(a, ra)])
+                    r = CTX.check(list(assumptions) + [diff], timeout=timeout)
+                    if r == "unsat":
+                        subst.append((v, rv_))
+                        merged += 1
+                        done = True
+                        break
+                    if r == "unknown":
+                        failed += 1
+                if not done:
+                    reps.append((v, a))
+        if subst:
+            goal = z3.substitute(goal, *subst)
+        return goal, merged, failed
 
     def env_of(self, solver, exprs):
         m = solver.model()
@@ -105,6 +154,47 @@ class Case:
             res, s, _ = CTX.solve(q + side, timeout)
             if res == "sat":
                 return self.env_of(s, q)
+        return None
+
+    def instantiate_search(self, q, inputs, quat_groups=(), tries=6, timeout=5000):
+        """counterexample search by partial concretisation: input variables get concrete rationals (unit quaternions from a
+        list of rational unit quaternions), the abstracted-function variables stay symbolic and the solver decides the rest.
+        Returns env or None.  Only ever produces candidates (replayed before being reported)."""
+        import random
+
+        rng = random.Random(self.info.get("seed", 0) * 7919 + len(self.obligations))
+        full = list(q) + CTX.axioms_for(q)
+        qvars = set()
+        groups = []
+        for g in quat_groups:
+            zs = [toz(v) if not z3.is_expr(v) else v for v in g]
+            if all(z3.is_const(z) and z.decl().kind() == z3.Z3_OP_UNINTERPRETED for z in zs):
+                groups.append(zs)
+                qvars.update(z.get_id() for z in zs)
+        zs_in = []
+        for v in inputs:
+            z = toz(v) if not z3.is_expr(v) else v
+            if z3.is_const(z) and z.decl().kind() == z3.Z3_OP_UNINTERPRETED and z.get_id() not in qvars:
+                zs_in.append(z)
+        vals = [Fraction(k, 2) for k in range(-6, 7)] + [Fraction(k, 3) for k in (-4, -2, -1, 1, 2, 4)]
+        for _ in range(tries):
+            sub = []
+            for g in groups:
+                uq = list(random.Random(rng.random()).choice(UNIT_QUATS))
+                rng.shuffle(uq)
+                uq = [x * rng.choice((1, -1)) for x in uq]
+                sub += [(z, rv(x)) for z, x in zip(g, uq)]
+            for z in zs_in:
+                sub.append((z, rv(rng.choice(vals))))
+            inst = [z3.simplify(z3.substitute(e, *sub)) for e in full]
+            if any(z3.is_false(e) for e in inst):
+                continue
+            res, s, _ = CTX.solve(inst, timeout, with_axioms=False)
+            if res == "sat":
+                env = self.env_of(s, inst)
+                for z, x in sub:
+                    env[str(z)] = val_to_float(x)
+                return env
         return None
 
     def note_inconclusive(self, name, why):
